@@ -466,7 +466,7 @@ fn plans(run: &mut Run, rng: &mut Rng) {
             // the Lean judge is asked only when the implementation-level oracle saw no difference
             // (a case that already failed is reported under its own signature)
             if rt::same_outcome(&ob, &oa, q.ordered, level).is_ok() {
-                judge_case(run, &plan, &after, &[&ds, &ds2], q.tags.len() >= 2);
+                judge_case(run, &plan, &after, &[&ds], q.tags.len() >= 2);
             } else {
                 run.count("judge_skipped_oracle_failed");
             }
